@@ -140,7 +140,7 @@ func c25OutageCases(rng *rand.Rand, tier string, id *int, w *bufio.Writer) {
 	over := 65535 + 1 + rng.Intn(40)
 	emit(fmt.Sprintf("outage %d", over), []string{big, "live 1000000",
 		"w p:1:1,p:2:2", "sync",
-		"fsizeplus 0", fmt.Sprintf("w p:3:3*%d", over), "sync", "fsize 0",
+		"fsizeplus 0", fmt.Sprintf("w p:3:3*%d,p:3:8,p:3:9", over-2), "sync", "fsize 0",
 		"w p:4:4", "sync", "close", big, "load"})
 	if tier != "thorough" {
 		return
@@ -151,13 +151,13 @@ func c25OutageCases(rng *rand.Rand, tier string, id *int, w *bufio.Writer) {
 	for _, n := range []int{65534, 65535, 65536, 65535 + 45} {
 		emit(fmt.Sprintf("outage %d", n), []string{big, "live 1000000",
 			"w p:1:1,p:2:2", "sync",
-			"fsizeplus 0", fmt.Sprintf("w p:3:3*%d,d:1", n-31), "sync", "w p:5:5*30", "sync", "fsize 0",
+			"fsizeplus 0", fmt.Sprintf("w p:3:3*%d,p:3:7,d:1", n-32), "sync", "w p:5:5*29,p:3:6", "sync", "fsize 0",
 			"w p:4:4", "sync", "close", big, "load"})
 	}
 	// two outages in a row, the second one while the first backlog is only partly written (short write)
 	emit("outage twice", []string{big, "live 1000000",
 		"w p:1:1,p:2:2", "sync",
-		"fsizeplus 0", "w p:3:3*65560", "sync", "fsizeplus 100", "w p:6:6", "sync", "fsize 0",
+		"fsizeplus 0", "w p:3:3*65559,p:3:7", "sync", "fsizeplus 100", "w p:6:6,p:3:8", "sync", "fsize 0",
 		"w p:4:4", "sync", "close", big, "load"})
 	// the default block size: every WriteEntry past the size bound retries the flush (and re-encodes
 	// the whole backlog each time — quadratic in the real code, so this one stays far below the bound)
